@@ -116,6 +116,8 @@ type WorldOpts struct {
 	Clients    []string // identities to start an AcraServer for
 	CensorYAML string
 	Poison     base.PoisonRecordCallbackStorage
+	// StoreByteaOutput is the bytea_output setting of the database behind Acra ("" = hex, "escape"); the reference keeps hex.
+	StoreByteaOutput string
 }
 
 // NewWorld builds databases and AcraServers.
@@ -134,6 +136,9 @@ func NewWorld(o WorldOpts) (*World, error) {
 	var err error
 	if w.Store, err = fakepg.NewServer(sdb); err != nil {
 		return nil, err
+	}
+	if o.StoreByteaOutput != "" {
+		w.Store.SetByteaOutput(o.StoreByteaOutput)
 	}
 	if w.Ref, err = fakepg.NewServer(rdb); err != nil {
 		return nil, err
